@@ -1138,16 +1138,61 @@ Proof.
     intros H. inversion H; subst. apply (IH _ _ _ _ _ _ R).
 Qed.
 
+Lemma type_of_cell_errors c e : type_of_cell c = TErr e -> e = ValueError.
+Proof.
+  destruct c as [|[]| | | | | | |]; cbn [type_of_cell]; intros T;
+    repeat match type of T with context [match ?x with _ => _ end] => destruct x end; inversion T; reflexivity.
+Qed.
+
+Lemma convert_to_int_errors c e : convert_to_int_or_none c = TErr e -> e = TypeError \/ e = OverflowError.
+Proof.
+  destruct c as [|[]| | | | | | |]; cbn [convert_to_int_or_none Z_of_f64]; intros C;
+    repeat match type of C with context [if ?x then _ else _] => destruct x end; inversion C; auto.
+Qed.
+
+Lemma check_field_errors {A} cols name (conv : cell -> tres A) e :
+  (forall c e', conv c = TErr e' -> sym_exn e' = true) ->
+  check_field cols name conv = TErr e -> sym_exn e = true.
+Proof.
+  intros Hc. unfold check_field. destruct (find_col name cols) as [col|]; [|intros H; inversion H; reflexivity].
+  destruct (pccells col) as [|x r]; [discriminate|].
+  destruct (conv x) as [a|e'|] eqn:C; cbn [tbind]; try discriminate.
+  intros H. inversion H; subst. apply (Hc x e C).
+Qed.
+
+Lemma first_row_raises_errors cols e : first_row_raises cols = TErr e -> sym_exn e = true.
+Proof.
+  unfold first_row_raises.
+  assert (T : forall c e', type_of_cell c = TErr e' -> sym_exn e' = true)
+    by (intros c e' H; rewrite (type_of_cell_errors c e' H); reflexivity).
+  assert (I : forall c e', convert_to_int_or_none c = TErr e' -> sym_exn e' = true)
+    by (intros c e' H; destruct (convert_to_int_errors c e' H) as [-> | ->]; reflexivity).
+  assert (U : forall (c : cell) e', (TOk tt : tres unit) = TErr e' -> sym_exn e' = true) by (intros c e' H; discriminate).
+  destruct (check_field cols "type" type_of_cell) as [[]|e1|] eqn:F1; cbn [tbind]; try discriminate;
+    [|intros H; inversion H; subst; apply (check_field_errors _ _ _ _ T F1)].
+  destruct (check_field cols "lags" convert_to_int_or_none) as [[]|e1|] eqn:F2; cbn [tbind]; try discriminate;
+    [|intros H; inversion H; subst; apply (check_field_errors _ _ _ _ I F2)].
+  destruct (check_field cols "leads" convert_to_int_or_none) as [[]|e1|] eqn:F3; cbn [tbind]; try discriminate;
+    [|intros H; inversion H; subst; apply (check_field_errors _ _ _ _ I F3)].
+  destruct (check_field cols "name" (fun _ => TOk tt)) as [[]|e1|] eqn:F4; cbn [tbind]; try discriminate;
+    [|intros H; inversion H; subst; apply (check_field_errors _ _ _ _ U F4)].
+  destruct (check_field cols "equation" (fun _ => TOk tt)) as [[]|e1|] eqn:F5; cbn [tbind]; try discriminate;
+    [|intros H; inversion H; subst; apply (check_field_errors _ _ _ _ U F5)].
+  destruct (check_field cols "code" (fun _ => TOk tt)) as [[]|e1|] eqn:F6; cbn [tbind]; try discriminate;
+    [|intros H; inversion H; subst; apply (check_field_errors _ _ _ _ U F6)].
+  intros H. inversion H. reflexivity.
+Qed.
+
 Lemma table_to_symbols_errors t e : table_to_symbols t = TErr e -> sym_exn e = true.
 Proof.
   unfold table_to_symbols. destruct (ilabels (tindex t)); [discriminate|].
-  destruct (find_col "type" (tcols t)); [|intros H; inversion H; reflexivity].
-  destruct (find_col "lags" (tcols t)); [|intros H; inversion H; reflexivity].
-  destruct (find_col "leads" (tcols t)); [|intros H; inversion H; reflexivity].
-  destruct (find_col "name" (tcols t)); [|intros H; inversion H; reflexivity].
-  destruct (find_col "equation" (tcols t)); [|intros H; inversion H; reflexivity].
-  destruct (find_col "code" (tcols t)); [|intros H; inversion H; reflexivity].
-  destruct (existsb _ (tcols t)); [intros H; inversion H; reflexivity|].
+  destruct (find_col "type" (tcols t)); [|apply first_row_raises_errors].
+  destruct (find_col "lags" (tcols t)); [|apply first_row_raises_errors].
+  destruct (find_col "leads" (tcols t)); [|apply first_row_raises_errors].
+  destruct (find_col "name" (tcols t)); [|apply first_row_raises_errors].
+  destruct (find_col "equation" (tcols t)); [|apply first_row_raises_errors].
+  destruct (find_col "code" (tcols t)); [|apply first_row_raises_errors].
+  destruct (existsb _ (tcols t)); [apply first_row_raises_errors|].
   apply rows_to_symbols_errors.
 Qed.
 
@@ -1196,21 +1241,35 @@ Lemma from_table_char c t m :
      cast_all (cdtype c) (source_cells c (length (ilabels (tindex t))) (tcols t) k) = TOk (scells s)) /\
   fstatus m = mkSeries NStr (repeat (CStr "-") (length (ilabels (tindex t)))) /\
   fiters m = mkSeries NInt (repeat (CInt (-1)) (length (ilabels (tindex t)))) /\
-  (cstrict c = true -> forall col, In col (tcols t) -> In (pcname col) (cnames c)).
+  (cstrict c = true -> forall col, In col (tcols t) -> pcname col <> "dtype" -> In (pcname col) (cnames c)).
 Proof.
   unfold from_table. destruct (existsb _ (tcols t)); [discriminate|].
-  destruct (has_dup (cnames c)) eqn:D; [discriminate|].
-  destruct (cstrict c && existsb (fun col => negb (mem_s (pcname col) (cnames c))) (tcols t)) eqn:S; [discriminate|].
-  destruct (init_vars c (length (ilabels (tindex t))) (tcols t) (cnames c)) as [vars|e|] eqn:V; cbn [tbind]; try discriminate.
-  intros H. inversion H; subst; clear H. cbn [fspan fnames fvars fstatus fiters].
-  destruct (init_vars_char _ _ _ _ _ V) as [I1 I2].
-  repeat split; try assumption; try reflexivity.
-  - clear -D. induction (cnames c) as [|a l IH]; [constructor|]. cbn [has_dup] in D. apply orb_false_iff in D as [D1 D2].
-    constructor; [apply mem_s_false; assumption|apply IH; assumption].
-  - apply (I2 k s H).
-  - apply (I2 k s H).
-  - intros St col Hc. rewrite St in S. cbn [andb] in S.
-    assert (X := proj1 (existsb_false_iff _ _) S col Hc). apply negb_false_iff in X. apply mem_s_In. assumption.
+  destruct (existsb _ (tcols t)); [discriminate|].
+  destruct (has_dup (cnames c)) eqn:D; [discriminate|]. cbv zeta.
+  destruct (cstrict c && existsb (fun col => negb (mem_s (pcname col) (cnames c)))
+                                 (filter (fun col => negb (String.eqb (pcname col) "dtype")) (tcols t))) eqn:S; [discriminate|].
+  assert (ND : NoDup (cnames c)).
+  { clear -D. induction (cnames c) as [|a l IH]; [constructor|]. cbn [has_dup] in D. apply orb_false_iff in D as [D1 D2].
+    constructor; [apply mem_s_false; assumption|apply IH; assumption]. }
+  assert (ST : cstrict c = true -> forall col, In col (tcols t) -> pcname col <> "dtype" -> In (pcname col) (cnames c)).
+  { intros St col Hc Hd. rewrite St in S. cbn [andb] in S.
+    assert (Hf : In col (filter (fun col => negb (String.eqb (pcname col) "dtype")) (tcols t))).
+    { apply filter_In. split; [assumption|]. apply negb_true_iff. destruct (String.eqb (pcname col) "dtype") eqn:E; [|reflexivity].
+      apply String.eqb_eq in E. contradiction. }
+    assert (X := proj1 (existsb_false_iff _ _) S col Hf). apply negb_false_iff in X. apply mem_s_In. assumption. }
+  destruct (existsb (fun col => String.eqb (pcname col) "dtype") (tcols t)).
+  - destruct (cnames c) as [|k r] eqn:N.
+    + intros H. inversion H; subst; clear H. cbn [fspan fnames fvars fstatus fiters map].
+
+      split; [reflexivity|]. split; [reflexivity|]. split; [reflexivity|]. split; [assumption|].
+      split; [intros k s []|]. split; [reflexivity|]. split; [reflexivity|assumption].
+    + destruct (mem_s k ["status"; "iterations"]); discriminate.
+  - destruct (init_vars c (length (ilabels (tindex t))) (tcols t) (cnames c)) as [vars|e|] eqn:V; cbn [tbind]; try discriminate.
+    intros H. inversion H; subst; clear H. cbn [fspan fnames fvars fstatus fiters].
+    destruct (init_vars_char _ _ _ _ _ V) as [I1 I2].
+    repeat split; try assumption; try reflexivity.
+    + apply (I2 k s H).
+    + apply (I2 k s H).
 Qed.
 
 Definition from_exn (e : exn) : bool :=
@@ -1236,9 +1295,12 @@ Qed.
 
 Lemma from_table_errors c t e : from_table c t = TErr e -> from_exn e = true.
 Proof.
-  unfold from_table. destruct (existsb _ (tcols t)); [discriminate|].
-  destruct (has_dup (cnames c)); [intros H; inversion H; reflexivity|].
+  unfold from_table. destruct (existsb _ (tcols t)); [intros H; inversion H; reflexivity|].
+  destruct (existsb _ (tcols t)); [discriminate|].
+  destruct (has_dup (cnames c)); [intros H; inversion H; reflexivity|]. cbv zeta.
   destruct (cstrict c && _); [intros H; inversion H; reflexivity|].
+  destruct (existsb (fun col => String.eqb (pcname col) "dtype") (tcols t)).
+  { destruct (cnames c) as [|k r]; [discriminate|]. destruct (mem_s k ["status"; "iterations"]); intros H; inversion H; reflexivity. }
   generalize (cnames c) at 1. intros names.
   destruct (init_vars c (length (ilabels (tindex t))) (tcols t) names) as [vars|e1|] eqn:V; cbn [tbind]; try discriminate.
   intros H. inversion H; subst. clear H. revert e V.
